@@ -254,6 +254,9 @@ def inlineReq (r : Req) : String :=
 
 /-! search -/
 
+/-- `1` the property's rule, `0` replace always, `c` the code as it currently is (`extFixApplied`) -/
+def fixFlag (s : String) : Bool := if s = "1" then true else if s = "c" then extFixApplied else false
+
 def unEq (s : String) : List Char := (s.drop 1).toString.toList
 
 def showAbs (p : List FName) : String := "/" ++ "/".intercalate (p.map String.ofList)
@@ -285,7 +288,7 @@ def findReq (toks : List String) : String :=
             if files.contains p then some .file
             else if p = [] ∨ dirs.contains p ∨ files.any (fun f => p.isPrefixOf f ∧ p ≠ f) ∨ dirs.any (fun f => p.isPrefixOf f) then some .dir
             else none
-          let env : SearchEnv := { home := optPath home, origin := optPath origin, cwd := absOf cwd, extOnlyWhenMissing := fix = "1" }
+          let env : SearchEnv := { home := optPath home, origin := optPath origin, cwd := absOf cwd, extOnlyWhenMissing := fixFlag fix }
           match findFile env fs (parsePath (unEq parent)) (parsePath (unEq rel)) metas (libsOf libs) (unEq ext) with
           | .ok q => "OK " ++ showAbs q
           | .error e => "ERR " ++ (if e = nonRelativeMsg then "nonrelative" else "notfound")
@@ -300,7 +303,7 @@ def showComp : Comp → String
 def setextReq (toks : List String) : String :=
   match toks with
   | [fix, name, ext] =>
-    let env : SearchEnv := { home := none, origin := none, cwd := [], extOnlyWhenMissing := fix = "1" }
+    let env : SearchEnv := { home := none, origin := none, cwd := [], extOnlyWhenMissing := fixFlag fix }
     "/".intercalate ((applyExt env (parsePath (unEq name)) (unEq ext)).map showComp)
   | _ => "bad-request"
 
